@@ -304,3 +304,49 @@ func VP_C13_KindChange() {
 	zzvp.Assert(vpSameSet(st.untracked, []string{newPath}), "untracked = exactly the files on disk that are neither tracked nor ignored nor inside .goit")
 	zzvp.Done()
 }
+
+// VP_C13_Ignore: with a .goitignore ('*.ext' entry and a directory entry) status still reports exactly the modified,
+// deleted and untracked files that no entry excludes — also those standing next to an ignored file in the same directory.
+func VP_C13_Ignore() {
+	vpInitRepo()
+	w := zzvp.Root()
+	maxc := zzvp.Param("complen", 1)
+	ext := zzvp.Str("ext", 1, "a-z")
+	base := ""
+	if zzvp.Choose(2) == 1 {
+		base = vpComp("bd", 1) + "/"
+	}
+	tracked := base + vpComp("tr", maxc)
+	untracked := base + vpComp("un", maxc)
+	ignored := base + vpComp("ig", maxc) + "." + ext
+	igndir := vpComp("idr", 1)
+	zzvp.Assume(tracked != untracked && tracked != ignored && untracked != ignored)
+	zzvp.Assume(base != igndir+"/" && tracked != igndir && untracked != igndir && ignored != igndir)
+	endsExt := func(p string) bool { return len(p) > len(ext) && p[len(p)-len(ext)-1:] == "."+ext }
+	zzvp.Assume(!endsExt(tracked) && !endsExt(untracked))
+	zzvp.WriteFile(w+"/.goitignore", []byte("*."+ext+"\n"+igndir+"/\n"))
+	zzvp.WriteFile(w+"/"+tracked, []byte("1"))
+	vpOK(zzvp.Run("add", tracked))
+	vpOK(zzvp.Run("add", ".goitignore"))
+	vpOK(zzvp.Run("commit", "-m", "base"))
+	zzvp.WriteFile(w+"/"+ignored, []byte("i"))
+	zzvp.WriteFile(w+"/"+igndir+"/x", []byte("j"))
+	zzvp.WriteFile(w+"/"+untracked, []byte("u"))
+	var wantMod, wantDel []string
+	switch zzvp.Choose(3) {
+	case 1:
+		zzvp.WriteFile(w+"/"+tracked, []byte("2"))
+		wantMod = append(wantMod, tracked)
+	case 2:
+		zzvp.RemoveAll(w + "/" + tracked)
+		wantDel = append(wantDel, tracked)
+	}
+	r := zzvp.Run("status")
+	zzvp.Assert(r.Exit == 0, "status succeeds")
+	st := vpParseStatus(r.Out)
+	zzvp.Assert(len(st.staged) == 0, "nothing is staged right after a commit")
+	zzvp.Assert(vpSameSet(st.modified, wantMod), "modified = exactly the tracked files whose bytes differ from their staged blob (identical rewrite reports nothing)")
+	zzvp.Assert(vpSameSet(st.deleted, wantDel), "deleted = exactly the tracked paths missing from the work tree")
+	zzvp.Assert(vpSameSet(st.untracked, []string{untracked}), "untracked = exactly the files on disk that are neither tracked nor ignored nor inside .goit")
+	zzvp.Done()
+}
